@@ -9,9 +9,12 @@ import (
 
 // Registry maps property ids to their checks.
 var Registry = map[string]func(*core.Ctx){
+	"C01": C01,
+	"C04": C04,
 	"C12": C12,
 	"C13": C13,
 	"C15": C15,
+	"C16": C16,
 	"C18": C18,
 	"C19": C19,
 }
